@@ -1,0 +1,119 @@
+//go:build verif
+
+// Machine-checked contracts (comment-only; compiled only under the build tag "verif").
+// C13: Gateway API routes - exact split, untouched foreign backends, clean restore.
+package gateway
+
+//@ define isSvc(b, name) = b.Kind != nil && *b.Kind == "Service" && b.Name == name
+//@ define sameBackend(a, b) = a.Group == b.Group && a.Kind == b.Kind && a.Name == b.Name && a.Namespace == b.Namespace && a.Port == b.Port && a.Weight == b.Weight && a.Filters == b.Filters
+
+//@ func generateCanaryWeight
+//@ props C13
+//@ ensures exact_split: result1 == canaryPercent && result0 == 100 - canaryPercent
+//@ pure
+
+// the first backendRef of the rule that is the Service `serviceName` (a copy of it), or nil when there is none
+//@ func getServiceBackendRef
+//@ props C13
+//@ ensures found: result1 != nil ==> 0 <= result0 && result0 < len(rule.BackendRefs) && isSvc(rule.BackendRefs[result0], serviceName) && sameBackend(result1, rule.BackendRefs[result0]) && fresh(result1)
+//@ ensures first: result1 != nil ==> (forall k :: 0 <= k && k < result0 ==> !isSvc(rule.BackendRefs[k], serviceName))
+//@ ensures none: result1 == nil ==> result0 == 0 && (forall k :: 0 <= k && k < len(rule.BackendRefs) ==> !isSvc(rule.BackendRefs[k], serviceName))
+//@ ensures framed: unchangedOutside()
+//@ loop 1 invariant -1 <= rangeindex && rangeindex < len(rule.BackendRefs)
+//@ loop 1 invariant forall k :: 0 <= k && k <= rangeindex ==> !isSvc(rule.BackendRefs[k], serviceName)
+//@ loop 1 invariant framed: unchangedOutside()
+
+//@ define refIsSvc(ref) = ref.Kind != nil && *ref.Kind == "Service"
+//@ define elemKept(r, k) = old(r.BackendRefs)[k].Group == old(r.BackendRefs[k].Group) && old(r.BackendRefs)[k].Kind == old(r.BackendRefs[k].Kind) && old(r.BackendRefs)[k].Name == old(r.BackendRefs[k].Name) && old(r.BackendRefs)[k].Namespace == old(r.BackendRefs[k].Namespace) && old(r.BackendRefs)[k].Port == old(r.BackendRefs[k].Port) && old(r.BackendRefs)[k].Weight == old(r.BackendRefs[k].Weight) && old(r.BackendRefs)[k].Filters == old(r.BackendRefs[k].Filters)
+//@ define hasSvc(r, name) = exists k :: 0 <= k && k < len(r.BackendRefs) && isSvc(r.BackendRefs[k], name)
+
+// setServiceBackendRef replaces the first backendRef of the same Service by ref, or appends ref; every other backendRef
+// keeps its position and content; the elements of the slice the rule held before are not written (the rule may be a
+// shallow copy of a rule of the HTTPRoute that was just read).
+//@ func setServiceBackendRef
+//@ props C13
+//@ requires rule != nil
+//@ ensures not_a_service: !old(refIsSvc(ref)) ==> rule.BackendRefs == old(rule.BackendRefs)
+//@ ensures appended: old(refIsSvc(ref)) && !old(hasSvc(rule, ref.Name)) ==> len(rule.BackendRefs) == old(len(rule.BackendRefs)) + 1 && sameBackend(rule.BackendRefs[old(len(rule.BackendRefs))], ref) && (forall k :: 0 <= k && k < old(len(rule.BackendRefs)) ==> sameBackend(rule.BackendRefs[k], old(rule.BackendRefs)[k]))
+//@ define firstSvcOld(r, name, k) = isSvc(old(r.BackendRefs)[k], name) && (forall m :: 0 <= m && m < k ==> !isSvc(old(r.BackendRefs)[m], name))
+//@ ensures replaced: old(refIsSvc(ref)) && old(hasSvc(rule, ref.Name)) ==> len(rule.BackendRefs) == old(len(rule.BackendRefs)) && (forall k :: 0 <= k && k < old(len(rule.BackendRefs)) ==> (firstSvcOld(rule, ref.Name, k) ==> sameBackend(rule.BackendRefs[k], ref)) && (!firstSvcOld(rule, ref.Name, k) ==> sameBackend(rule.BackendRefs[k], old(rule.BackendRefs)[k])))
+//@ ensures old_elements_not_written: forall k :: 0 <= k && k < old(len(rule.BackendRefs)) ==> elemKept(rule, k)
+//@ ensures framed: unchangedOutside(rule, old(rule.BackendRefs))
+//@ loop 1 invariant framed: unchangedOutside(rule)
+//@ loop 1 invariant range: -1 <= rangeindex && rangeindex < len(oldRefs) && len(rule.BackendRefs) == rangeindex + 1 && oldRefs == old(rule.BackendRefs) && fresh(rule.BackendRefs) && !fresh(oldRefs) && old(refIsSvc(ref))
+//@ loop 1 invariant found: 0 <= index && index < len(oldRefs) && isSvc(oldRefs[index], ref.Name) && (forall m :: 0 <= m && m < index ==> !isSvc(oldRefs[m], ref.Name))
+//@ loop 1 invariant built: forall k :: 0 <= k && k <= rangeindex ==> (k == index ==> sameBackend(rule.BackendRefs[k], ref)) && (k != index ==> sameBackend(rule.BackendRefs[k], oldRefs[k]))
+
+// filterOutServiceBackendRef rebuilds the backendRefs without the first ref of the Service; like setServiceBackendRef it
+// never writes the elements of the slice the rule held before.
+//@ func filterOutServiceBackendRef
+//@ props C13
+//@ requires rule != nil
+//@ ensures none: !old(hasSvc(rule, serviceName)) ==> rule.BackendRefs == old(rule.BackendRefs)
+//@ ensures one_less: old(hasSvc(rule, serviceName)) ==> len(rule.BackendRefs) == old(len(rule.BackendRefs)) - 1
+//@ ensures old_elements_not_written: forall k :: 0 <= k && k < old(len(rule.BackendRefs)) ==> elemKept(rule, k)
+//@ ensures framed: unchangedOutside(rule)
+//@ loop 1 invariant framed: unchangedOutside(rule)
+//@ loop 1 invariant range: -1 <= rangeindex && rangeindex < len(oldRefs) && oldRefs == old(rule.BackendRefs) && fresh(rule.BackendRefs) && !fresh(oldRefs) && 0 <= index && index < len(oldRefs)
+//@ loop 1 invariant count: len(rule.BackendRefs) == rangeindex + 1 - ite(index <= rangeindex, 1, 0)
+
+// ---------- weight step ----------
+// Only the shape is proved here. The per-rule statement (stable ref gets 100-w, canary ref gets w, every other backend
+// keeps position and content) follows informally from the contracts of getServiceBackendRef / setServiceBackendRef /
+// generateCanaryWeight above; the composition over the loop (which needs the input rules to be pairwise separate) did not
+// discharge within the time budget and is NOT claimed.
+//@ func (*gatewayController).buildCanaryWeightHttpRoutes
+//@ props C13
+//@ requires r != nil && weight != nil
+//@ ensures same_number_of_rules: len(result) == len(rules)
+//@ loop 1 invariant range: -1 <= rangeindex && rangeindex < len(rules) && len(desired) == rangeindex + 1
+
+// ---------- dispatch and restore ----------
+//@ track (*gatewayController).buildCanaryHeaderHttpRoutes as headerRoutes
+//@ track (*gatewayController).buildCanaryWeightHttpRoutes as weightRoutes
+//@ func (*gatewayController).buildDesiredHTTPRoute
+//@ props C13 C05
+//@ requires r != nil
+// a step without weight and without matches is never routed (DoTrafficRouting returns before calling the provider)
+//@ requires step_routes: weight != nil || len(matches) > 0
+//@ ensures restore_keeps_no_backendless_rule: weight != nil && *weight == -1 ==> (forall j :: 0 <= j && j < len(result) ==> len(result[j].BackendRefs) > 0)
+//@ ensures restore_builds_nothing_new: weight != nil && *weight == -1 ==> #headerRoutes == 0 && #weightRoutes == 0 && len(result) <= len(rules)
+//@ ensures match_step_uses_header_routes: !(weight != nil && *weight == -1) && len(matches) > 0 ==> #headerRoutes == 1 && #weightRoutes == 0
+//@ ensures weight_step_uses_weight_routes: !(weight != nil && *weight == -1) && len(matches) == 0 ==> #weightRoutes == 1 && #headerRoutes == 0 && len(result) == len(rules)
+//@ loop 1 invariant range: -1 <= rangeindex && rangeindex < len(rules) && len(desired) <= rangeindex + 1 && weight != nil && *weight == -1 && #headerRoutes == 0 && #weightRoutes == 0
+//@ loop 1 invariant kept_have_backends: forall j :: 0 <= j && j < len(desired) ==> len(desired[j].BackendRefs) > 0
+
+// ---------- provider protocol ----------
+// EnsureRoutes reports "verified" only when the HTTPRoute it just read already equals the desired rules (and then writes
+// nothing); otherwise it writes the desired rules and reports "not yet".
+//@ track (*gatewayController).buildDesiredHTTPRoute as desiredRoute
+//@ track k8s.io/client-go/util/retry.RetryOnConflict as writeRoute
+//@ func (*gatewayController).EnsureRoutes
+//@ props C13 C03
+//@ requires r != nil && strategy != nil && r.conf.TrafficConf != nil && r.conf.TrafficConf.HTTPRouteName != nil
+//@ requires step_routes: strategy.Traffic != nil || len(strategy.Matches) > 0
+//@ ensures verified_means_nothing_written: result0 ==> result1 == nil && #writeRoute == 0 && #Update == 0 && #Patch == 0 && #Create == 0 && #Delete == 0 && #desiredRoute == 1
+//@ ensures one_read_one_plan: #Get <= 1 && #desiredRoute <= 1 && #writeRoute <= 1
+//@ ensures error_means_not_verified: result1 != nil ==> !result0
+
+// Finalise reports "done" only after it has written the restored rules; when nothing is left to restore it reports
+// false (the caller's grace wrapper then observes "nothing modified").
+//@ func (*gatewayController).Finalise
+//@ props C13 C05
+//@ requires r != nil && r.conf.TrafficConf != nil && r.conf.TrafficConf.HTTPRouteName != nil
+//@ ensures modified_means_written: result0 ==> result1 == nil && #writeRoute == 1 && #desiredRoute == 1
+//@ ensures restore_plan: #desiredRoute <= 1 && #writeRoute <= 1
+
+// ---------- match step ----------
+// Each canary match generated from one of the original rule's matches and the k-th non-path match of the step carries
+// the original conditions plus exactly that user match's header and query conditions (stated on the number of
+// conditions, which is what distinguishes "this user match" from "some other entry of the step's match list").
+//@ func (*gatewayController).buildCanaryHeaderHttpRoutes
+//@ props C13
+//@ requires r != nil
+//@ loop 4 invariant appended_per_user_match: len(newMatches) == atloop(len(newMatches)) + rangeindex$4 + 1 && -1 <= rangeindex$4 && rangeindex$4 < len(nonPathMatches)
+//@ loop 4 invariant conditions_of_kth_user_match: forall q :: 0 <= q && q <= rangeindex$4 ==> len(newMatches[atloop(len(newMatches)) + q].Headers) == len(canaryRuleMatch.Headers) + len(nonPathMatches[q].Headers) && len(newMatches[atloop(len(newMatches)) + q].QueryParams) == len(canaryRuleMatch.QueryParams) + len(nonPathMatches[q].QueryParams)
+//@ define sepMatches() = canaryRule != nil && (cap(newMatches) == 0 || backing(newMatches) != backing(canaryRule.Matches))
+//@ loop 2 invariant separate: sepMatches()
+//@ loop 3 invariant separate: sepMatches()
+//@ loop 4 invariant separate: sepMatches() && canaryRuleMatch != nil && backing(canaryRuleMatch) == backing(canaryRule.Matches)
